@@ -25,6 +25,8 @@ def run_ref(script, v, sources, timeout=600):
         head, body = body[:1], body[1:]           # a mode switch of the script, not a source
 
     def once(part):
+        from harness import common
+        common.keepalive()
         try:
             p = subprocess.run([exe, os.path.join(HERE, 'ref', script)], input=json.dumps(head + part), capture_output=True, text=True, timeout=timeout,
                                env={'PYTHONHASHSEED': '0', 'PATH': '/usr/bin:/bin'})
@@ -47,7 +49,21 @@ def run_ref(script, v, sources, timeout=600):
             return [None]
         mid = len(part) // 2
         return rec(part[:mid]) + rec(part[mid:])
-    return rec(body)
+    # programs of the kind on which some reference interpreters are known to die go through in small batches, so that one crash does not cost a
+    # bisection of the whole batch
+    risky = [i for i, src in enumerate(body) if isinstance(src, str) and 'yield' in src and 'async' in src]
+    if not risky or len(risky) == len(body):
+        return rec(body)
+    rs = set(risky)
+    safe = [i for i in range(len(body)) if i not in rs]
+    out = [None] * len(body)
+    for i, o in zip(safe, rec([body[i] for i in safe])):
+        out[i] = o
+    for k in range(0, len(risky), 8):
+        idx = risky[k:k + 8]
+        for i, o in zip(idx, rec([body[i] for i in idx])):
+            out[i] = o
+    return out
 
 
 def stdlib_files(v, n, rnd):
